@@ -1037,6 +1037,190 @@ def strong_order_check(ctx):
                 "schemes with the same advertised order; %d paths" % (ORDER_MARGIN, PEER_FACTOR, P),
         "schemes": report}
 
+
+# ------------------- histories on ONE solver object vs fresh solvers
+def _h_drive(t, w):
+    return w * np.cos(2 * t)
+
+
+def _h_kap(t, k):
+    return k * (1 + 0.5 * t)
+
+
+def _h_fb(t, k, W):
+    return k + 0.25 * W(t)[0]
+
+
+SITE_PRESET_CALL = "sode/_noise.py:PreSetWiener.__call__"
+
+
+def history_case(open_, method, het, feedback, hseed):
+    """The noise record determines the trajectory - also on a solver object
+    with a past.  One solver `hist` (built with args A0) goes through a
+    sequence of actions; every result is compared, bitwise, with a FRESH
+    solver constructed directly with the arguments / step size in force and
+    fed the same record:
+      1 run_from_experiment (warm-up, args A0)
+      2 run_from_experiment(args=A1)                      [same tlist]
+      3 run_from_experiment(args=A2) on a tlist of twice the spacing
+      4 run(ntraj=2, args=A1) with scripted generators (trajectories in sequence)
+      5 start(); step(); step(args=A2)
+    H, the monitored and the unmonitored operator depend on args; with
+    `feedback` the monitored operator also reads the Wiener process.  For
+    Rouchon the operators derived in _make_operators (M, c + c^dag, c_i c_j)
+    are compared with those of the fresh solver as well.
+    Returns (description, list of (site, signature, message))."""
+    import qutip
+    N = 3
+    a = qutip.destroy(N)
+    cls = qutip.SMESolver if open_ else qutip.SSESolver
+    rr = random.Random(hseed)
+    dt = 2.0 ** -6
+    rows = 2 if method in TWO_ROW else 1
+    n = 2 if het else 1
+    A0 = {"w": 0.5, "k": 0.75}
+    A1 = {"w": rr.choice([3.0, -2.0, 1.5]), "k": 0.75}
+    A2 = {"w": rr.choice([-1.0, 2.5]), "k": rr.choice([1.25, 0.5])}
+
+    def build(args, dt_):
+        H = qutip.QobjEvo([qutip.num(N), [a + a.dag(), _h_drive]], args={"w": args["w"]})
+        if feedback:
+            sc = [qutip.QobjEvo([a, _h_fb], args={"k": args["k"], "W": cls.WienerFeedback()})]
+        else:
+            sc = [qutip.QobjEvo([a, _h_kap], args={"k": args["k"]})]
+        kw = {"c_ops": [qutip.QobjEvo([0.5 * a, _h_kap], args={"k": args["k"]})]} if open_ else {}
+        return cls(H, sc, heterodyne=het,
+                   options={"method": method, "dt": dt_, "progress_bar": "", "store_states": True,
+                            "store_measurement": "start", "keep_runs_results": True}, **kw)
+
+    st0 = qutip.fock_dm(N, 1) if open_ else qutip.basis(N, 1)
+    tl1 = [k * dt for k in range(5)]
+    tl2 = [k * 2 * dt for k in range(5)]
+
+    def rec(T):
+        x = np.array([[rr.randrange(-8, 9) * 2.0 ** -6 for _ in range(T)] for _ in range(n)])
+        return x.reshape((n // 2, 2, T)) if het else x
+
+    def same(X, Y):
+        return len(X) == len(Y) and all(np.array_equal(x.full(), y.full()) for x, y in zip(X, Y))
+
+    def diff(X, Y):
+        return max(float(np.abs(x.full() - y.full()).max()) for x, y in zip(X, Y))
+
+    desc = {"open": open_, "method": method, "het": het, "feedback": feedback, "hseed": hseed,
+            "A0": A0, "A1": A1, "A2": A2, "dt": dt,
+            "system": "H = num(3) + w cos(2t)(a+a^dag); sc_op = %s a; c_op = 0.5 k(1+t/2) a"
+                      % ("(k + W(t)[0]/4)" if feedback else "k(1+t/2)")}
+    found = []
+    site = "sode:history:%s/%s" % ("sme" if open_ else "sse", method)
+
+    def derived_ops(solver):
+        integ = solver._integrator
+        if not hasattr(integ, "scc"):
+            return None
+        ts = (0.0, 3 * dt)
+        out = [integ.M(t).full() for t in ts]
+        out += [op(t).full() for op in integ.cpcds for t in ts]
+        out += [op(t).full() for row in integ.scc for op in row for t in ts]
+        return out
+
+    def judge(step, r_states, f_states, hist=None, fresh=None):
+        if not same(r_states, f_states):
+            found.append((site, "history-changes-trajectory",
+                          "%s: a solver with a past and a fresh solver built with the same "
+                          "arguments give different trajectories for the same noise record "
+                          "(max %.3g)" % (step, diff(r_states, f_states)), step))
+        if hist is not None and not feedback:
+            d1, d2 = derived_ops(hist), derived_ops(fresh)
+            if d1 is not None and not all(np.array_equal(x, y) for x, y in zip(d1, d2)):
+                found.append((site, "derived-operators-stale",
+                              "%s: the operators derived by the integrator (M, c + c^dag, "
+                              "c_i c_j) differ from those of a fresh solver with the current "
+                              "arguments" % step, step))
+
+    with warnings.catch_warnings():
+        warnings.simplefilter("ignore")
+        hist = build(A0, dt)
+        if method not in TWO_ROW:
+            try:
+                hist.run_from_experiment(st0, tl1, rec(4))
+                d2 = rec(4)
+                r = hist.run_from_experiment(st0, tl1, d2, args=A1)
+                fresh = build(A1, dt)
+                f = fresh.run_from_experiment(st0, tl1, d2)
+                judge("run_from_experiment(args=A1) after a run with A0", r.states, f.states,
+                      hist, fresh)
+                d3 = rec(4)
+                r = hist.run_from_experiment(st0, tl2, d3, args=A2)
+                fresh = build(A2, 2 * dt)
+                f = fresh.run_from_experiment(st0, tl2, d3)
+                judge("run_from_experiment(args=A2) on a tlist of twice the spacing",
+                      r.states, f.states, hist, fresh)
+            except ValueError as e:
+                if feedback and "broadcast" in str(e):
+                    found.append((SITE_PRESET_CALL, "last_W-has-record-length",
+                                  "WienerFeedback under run_from_experiment: PreSetWiener.last_W "
+                                  "has len(tlist)-1 entries instead of one per stochastic "
+                                  "operator: %s" % e, "run_from_experiment with feedback"))
+                else:
+                    raise
+        vals = [rr.randrange(-8, 9) for _ in range(40 * rows * n)]
+        unit = 2.0 ** -6
+        hist.options["dt"] = dt
+        r = hist.run(st0, tl1, ntraj=2, args=A1,
+                     seeds=[FakeGen(vals, unit), FakeGen(vals[7:], unit)])
+        fresh = build(A1, dt)
+        f1 = fresh.run(st0, tl1, ntraj=1, seeds=[FakeGen(vals, unit)]).trajectories[0]
+        f2 = build(A1, dt).run(st0, tl1, ntraj=1, seeds=[FakeGen(vals[7:], unit)]).trajectories[0]
+        judge("run(ntraj=2, args=A1), first trajectory", r.trajectories[0].states, f1.states)
+        judge("run(ntraj=2, args=A1), second trajectory", r.trajectories[1].states, f2.states,
+              hist, fresh)
+        # step interface, arguments changed between two steps
+        g = FakeGen(vals, unit)
+        hist.start(st0, 0., seed=[g])
+        s1 = hist.step(4 * dt)
+        s2 = hist.step(8 * dt, args=A2)
+        g2 = FakeGen(vals, unit)
+        fa = build(A1, dt)
+        fa.start(st0, 0., seed=[g2])
+        t1 = fa.step(4 * dt)
+        if feedback:
+            # the Wiener process seen by the feedback must continue: the
+            # reference changes the arguments on the (otherwise fresh) solver
+            t2 = fa.step(8 * dt, args=A2)
+        else:
+            fb_ = build(A2, dt)
+            fb_.start(t1, 4 * dt, seed=[g2])
+            t2 = fb_.step(8 * dt)
+        judge("start(); step(); step(args=A2)", [s1, s2], [t1, t2])
+    desc["stream"] = vals[:16]
+    return desc, found
+
+
+def history_oracle(ctx, rng, dist):
+    combos = [(True, m) for m in ALL_SME] + [(False, m) for m in ALL_SSE]
+    reps = 1 if ctx.quick else 3
+    dd = dist.setdefault("history", {})
+    for rep in range(reps):
+        for open_, method in combos:
+            for het in (False, True):
+                for feedback in (False, True):
+                    hseed = rng.randrange(1 << 30)
+                    tag = "%s/%s" % ("sme" if open_ else "sse", method)
+                    dd[tag] = dd.get(tag, 0) + 1
+                    try:
+                        desc, found = history_case(open_, method, het, feedback, hseed)
+                    except Exception as e:
+                        ctx.violation("sode:history:" + tag, "raises:" + type(e).__name__,
+                                      "history on one solver object raised %r" % (e,),
+                                      {"kind": "history", "open": open_, "method": method,
+                                       "het": het, "feedback": feedback, "hseed": hseed})
+                        continue
+                    ctx.count_case(("history", json.dumps(desc, sort_keys=True, default=str)))
+                    for site, sig, msg, step in found:
+                        ctx.violation(site, sig, msg, {"kind": "history", "case": desc,
+                                                       "step": step})
+
 # ----------------------------------------------------------------------- run
 def report_wiener_call(ctx, case, r, model_agrees):
     """Classify a failure of W(t): the known defect is the one the faithful
@@ -1330,6 +1514,7 @@ def run(ctx):
                       {"methods": ms, "example": type_errors[ms[0]], "kind": "typeerror"})
     skipped_step_case(ctx)
     partition_consistency(ctx, rng, dist)
+    history_oracle(ctx, rng, dist)
     try:
         strong_order_check(ctx)
     except Exception as e:
@@ -1465,6 +1650,13 @@ def replay(ctx, payload):
                               "accessor %s (op %d) returns a value computed from state %d, "
                               "current is %d" % (op[1], i, pv, cur),
                               dict(d, impl_provenance=prov))
+                break
+    elif kind == "history":
+        c = d.get("case") or d
+        desc, found = history_case(c["open"], c["method"], c["het"], c["feedback"], c["hseed"])
+        for site, sig, msg, step in found:
+            if site == payload["site"] and sig == payload["signature"]:
+                ctx.violation(site, sig, msg, {"kind": kind, "case": desc, "step": step})
                 break
     elif kind == "convergence":
         convergence_exploration(ctx)
